@@ -44,7 +44,7 @@ ASSUMPTIONS = [
 KINDS = ("supervised", "semi", "unsup")
 
 
-EXPECTED_PROBES = ['refit_with_other_index_set', 'non_contiguous_data_set', 'non_float64_data_set', 'asymmetric_metric', 'call_raises_consistently', 'file_overwritten_after_a_model_read_it', 'fit_after_file_overwritten', 'integer_valued_metric', 'non_identity_index_array', 'path_overwritten', 'unsupervised_best_k_gt_1']
+EXPECTED_PROBES = ['precomputed_flag_switched_on_a_file_backed_model', 'refit_with_other_index_set', 'non_contiguous_data_set', 'non_float64_data_set', 'asymmetric_metric', 'call_raises_consistently', 'file_overwritten_after_a_model_read_it', 'fit_after_file_overwritten', 'integer_valued_metric', 'non_identity_index_array', 'path_overwritten', 'unsupervised_best_k_gt_1']
 
 SLOW_ARMS = ("restart",)
 
@@ -126,8 +126,11 @@ def gen_case(rng, arm, tier, k=0):
             ops.append(["fit", rng.randrange(models)] + (["alt"] if rng.random() < 0.3 else []))
         elif r < 0.70:
             ops.append(["predict", rng.randrange(models), [rng.randrange(len(test)) for _ in range(rng.randint(1, 6))]])
-        elif r < 0.80:
+        elif r < 0.78:
             ops.append(["getdist", rng.randrange(models), rng.random() < 0.5])
+        elif r < 0.82:
+            # the public flag is switched: the same object must then compute on the fly (and back)
+            ops.append(["flag", rng.randrange(models)])
         elif r < 0.92:
             f = rng.randrange(2)
             ops.append(["pre", f, rng.choice((metric, metric2))])
@@ -269,6 +272,15 @@ def run_case(case):
                     bump(out.probes, "integer_valued_metric")
                 log.add("new", f, metric)
                 norm.append(("new", f))
+            elif kop == "flag" and models:
+                md = models[op[1] % len(models)]
+                out.steps += 1
+                md["off"] = not md.get("off", False)
+                md["A"].pre_computed_distance = not md["off"]
+                md["fitted"] = False
+                bump(out.probes, "precomputed_flag_switched_on_a_file_backed_model")
+                log.add("flag", md["off"])
+                norm.append(("flag", md["off"]))
             elif kop in ("fit", "predict", "getdist") and models:
                 md = models[op[1] % len(models)]
                 A, Bm, metric = md["A"], md["B"], md["metric"]
@@ -285,11 +297,12 @@ def run_case(case):
                     Xun = D[s_un] if s_un else np.zeros((0, D.shape[1]), dtype=D.dtype)
                     tr_all = list(s_tr) + (list(s_un) if kind == "semi" else [])
                     md["tr_all"] = tr_all
+                    off = md.get("off", False)
                     if kind == "semi":
-                        ra = attempt(A.fit, Xtr.copy(), Ytr.copy(), Xun.copy(), Itr.copy())
+                        ra = attempt(A.fit, Xtr.copy(), Ytr.copy(), Xun.copy()) if off else attempt(A.fit, Xtr.copy(), Ytr.copy(), Xun.copy(), Itr.copy())
                         rb = attempt(Bm.fit, Xtr.copy(), Ytr.copy(), Xun.copy())
                     else:
-                        ra = attempt(A.fit, Xtr.copy(), Ytr.copy(), Itr.copy())
+                        ra = attempt(A.fit, Xtr.copy(), Ytr.copy()) if off else attempt(A.fit, Xtr.copy(), Ytr.copy(), Itr.copy())
                         rb = attempt(Bm.fit, Xtr.copy(), Ytr.copy())
                     if not consistent(ra, rb, "fit", k, metric, facts, out):
                         md["fitted"] = False
@@ -319,7 +332,7 @@ def run_case(case):
                     if not batch:
                         continue
                     Xq, Iq = D[batch], iarr(batch)
-                    ra = attempt(A.predict, Xq.copy(), Iq.copy())
+                    ra = attempt(A.predict, Xq.copy()) if md.get("off", False) else attempt(A.predict, Xq.copy(), Iq.copy())
                     rb = attempt(Bm.predict, Xq.copy())
                     if not consistent(ra, rb, "predict", k, metric, facts, out):
                         continue
